@@ -39,6 +39,23 @@ def record(R, name, bound, res, rule, samples):
 
 def violation(R, key, problems, cmd):
     """write one replay file for a bounded failure and register the violation"""
+    import re
+    from vc import check
+    known = [k for k in check.load_known() if k['property'] == R.prop and k.get('status') == 'known' and k['key'].startswith('bounded:')]
+    rest = []
+    for pr in problems:
+        hit = None
+        for k in known:
+            if re.search(k['key'][8:], pr):
+                hit = k
+                break
+        if hit is None:
+            rest.append(pr)
+        elif not any(kk is hit for kk, _ in R.known_hits):
+            R.known_hits.append((hit, dict(first_match=pr)))
+    problems = rest
+    if not problems:
+        return
     rdir = os.path.join(HERE, 'replays', R.prop)
     os.makedirs(rdir, exist_ok=True)
     path = os.path.join(rdir, 'bounded_%s.json' % key)
